@@ -499,8 +499,7 @@ def _env():
         raw = observe.raw(fs)
         raw.execute("insert into db1.s1.b values " + _vals(BYST))
         raw.execute("SET threads TO 1")  # 16 worker processes: one engine thread each (harness-side tuning only)
-        sess = conn._duck_conn  # noqa: SLF001
-        _W.update(fs=fs, conn=conn, raw=raw, sess=getattr(sess, "_r", sess))
+        _W.update(fs=fs, conn=conn, raw=raw, sess=observe.engine_conn(conn))
     return _W["conn"], _W["raw"], _W["sess"]
 
 
